@@ -162,7 +162,9 @@ def calculate_snr(
         noise_power = torch.mean(noise**2, dim=dim, keepdim=keepdim)
 
     # Handle zero noise case
-    eps = torch.finfo(original_power.dtype).eps
+    # Guard only against a division by exactly zero: machine epsilon (1.2e-7) is an absolute
+    # power and would cap the measurable SNR of weak signals (a -30 dB signal at 40 dB SNR)
+    eps = torch.finfo(original_power.dtype).tiny
     noise_power = torch.clamp(noise_power, min=eps)
 
     # Calculate SNR in dB
